@@ -189,12 +189,75 @@ def golden_pass(ck):
     ck.coverage["golden_source_level_programs"] = {"programs": len(GOLDEN), "not_as_expected": bad}
 
 
+def precedence_pass(ck):
+    """the parser against Rust's precedence / associativity: see tools/gen_prec.py"""
+    import gen_prec as GP
+    quick = ck.tier == "quick"
+    rng = ck.rng
+    progs = [GP.program(rng, rng.choice([2, 3, 3, 4])) for _ in range(160 if quick else 4000)]
+    nin = 8 if quick else 16
+    jobs, envs = [], []
+    for i, (e, t, src) in enumerate(progs):
+        ins = GP.inputs(rng, nin)
+        envs.append(ins)
+        given = " ".join("(" + " ".join('"%s"' % GP.bits_of(env[v], vt) for v, vt in GP.VARS) + ")" for env in ins)
+        jobs.append(f"(program p{i} (src {quote(src)}) (given {given}))")
+    rs = run_jobs(GVRUN, jobs, "c01.prec", timeout_per_job=3.0)
+    bad, rejected, compared, panics = 0, 0, 0, 0
+    for i, (e, t, src) in enumerate(progs):
+        r = rs.get(f"p{i}", "(no-result)")
+        if not r.startswith("(compile ok)"):
+            rejected += 1
+            if rejected <= 3 and "(err" in r:
+                # the generator only emits text that is valid Rust and well typed: a rejection is a parser defect too
+                ck.violation("an expression that is valid Rust with minimal parentheses is rejected",
+                             {"program": src, "rust": r[:200]}, key="parser-rejects-valid-grouping")
+            continue
+        forms = PC.split_top(r)
+        runs = PC.field(forms, "runs")
+        cfgs = {}
+        for cfg in PC.split_top(runs[len("(runs "):-1]):
+            name_end = cfg.index(" ") if " " in cfg else len(cfg) - 1
+            cfgs[cfg[1:name_end]] = PC.split_top(cfg[name_end + 1:-1]) if " " in cfg else []
+        got = cfgs.get("ssa-dedup", [])
+        for k, env in enumerate(envs[i]):
+            if k >= len(got):
+                break
+            try:
+                v = GP.ev(e, env)
+                want = None if v is None else '(ok "%s")' % GP.bits_of(v, t)
+            except GP.Panic as ex:
+                want = "(panic " + str(ex)
+                panics += 1
+            except GP.Unspecified:
+                want = None
+            compared += 1
+            g = got[k]
+            ok = want is None or (g == want if want.startswith("(ok") else g.startswith(want))
+            if not ok:
+                bad += 1
+                if bad <= 3:
+                    ck.violation("the compiled circuit disagrees with the expression tree that Rust's precedence and "
+                                 "associativity give the source text (parser grouping)",
+                                 {"program": src, "inputs": {kk: (int(vv) if not isinstance(vv, bool) else vv) for kk, vv in env.items()},
+                                  "tree_value": want, "circuit_result": g})
+                break
+    ck.obligation("parser oracle: generated expression trees printed with minimal parentheses compile to circuits that "
+                  "return the trees' values (Rust precedence, associativity, `as`, unary operators, if / else-if chains "
+                  "and match as operands)", bad == 0 and compared > 0, f"{bad} programs differ; {compared} evaluations")
+    ck.obligation("parser oracle: at least 90% of the generated texts are accepted", rejected <= 0.1 * len(progs),
+                  f"{rejected} of {len(progs)} rejected")
+    ck.coverage["parser_precedence_oracle"] = {"programs": len(progs), "rejected": rejected, "evaluations": compared,
+                                               "evaluations_that_panic": panics}
+
+
 def run(ck):
     fin = ck.finish
 
     def finish(**kw):
         if ck.harness_ok and ck.model_ok:
             golden_pass(ck)
+            precedence_pass(ck)
         return fin(**kw)
     ck.finish = finish
     return run_prog_property(
